@@ -627,6 +627,65 @@ func genHopeless(r *rng, c genCfg) *scenario {
 	return sc
 }
 
+// genLayered: an acyclic scenario in which intermediate results are shared — supplied values of distinct concrete
+// types, then converters each taking one or two of the types available so far and producing a new one, the target
+// taking the last ones. Multi-input converters are resolved by nested searches whose paths run through converters
+// reached before (clause (b) of C05: every converter satisfiable, the graph acyclic).
+func genLayered(r *rng, c genCfg) *scenario {
+	sc := &scenario{errOwner: map[int]int{}}
+	perm := r.perm(10)
+	nIn := 1 + r.intn(3)
+	var avail []int
+	target := &fnSpec{ID: 0, Script: "ok", OForm: "pos", Outs: []lab{{Ty: r.intn(4)}}, Dyn: []int{-1}}
+	sc.Funcs = append(sc.Funcs, target)
+	for i := 0; i < nIn; i++ {
+		avail = append(avail, perm[i])
+		sc.Opts = append(sc.Opts, optSpecC{Kind: "typed", Ty: perm[i], Vid: i + 1})
+	}
+	nConv := 2 + r.intn(5)
+	if nIn+nConv > 10 {
+		nConv = 10 - nIn
+	}
+	for j := 0; j < nConv; j++ {
+		k := 1 + r.intn(2)
+		if k > len(avail) {
+			k = len(avail)
+		}
+		var ins []lab
+		for _, i := range r.perm(len(avail))[:k] {
+			ins = append(ins, lab{Ty: avail[i]})
+		}
+		// prefer recent results as inputs: chains with shared ancestors
+		if len(avail) > nIn && r.chance(2, 3) {
+			ins[0] = lab{Ty: avail[len(avail)-1]}
+			if len(ins) == 2 && ins[1] == ins[0] {
+				ins = ins[:1]
+			}
+		}
+		out := perm[nIn+j]
+		f := c.newConv(r, sc, []lab{{Ty: out}}, ins)
+		f.Script, f.Once, f.HasErr = "ok", false, r.chance(1, 3)
+		avail = append(avail, out)
+		kind := "conv"
+		if f.Form == "built" || r.chance(1, 2) {
+			kind = "convfunc"
+		}
+		sc.Opts = append(sc.Opts, optSpecC{Kind: kind, Fids: []int{f.ID}})
+	}
+	target.Ins = []lab{{Ty: avail[len(avail)-1]}}
+	if len(avail) > nIn+1 && r.chance(1, 2) {
+		target.Ins = append(target.Ins, lab{Ty: avail[len(avail)-2]})
+	}
+	target.Form = formFor(r, c, target.Ins)
+	p := r.perm(len(sc.Opts))
+	shuf := make([]optSpecC, len(sc.Opts))
+	for i, j := range p {
+		shuf[i] = sc.Opts[j]
+	}
+	sc.Opts = shuf
+	return sc
+}
+
 // genTwin: the documented finding F14 made on purpose — two distinct interface types with equal method sets (types 10
 // and 13): a converter's typed output of type 10 under subtype y reaches a parameter of type 10 under another subtype
 // through the subtype-less twin vertex of type 13, which exists as soon as something mentions type 13.
